@@ -1,10 +1,10 @@
 package main
 
 import (
-	"runtime/debug"
 	"crypto/cipher"
 	"encoding/binary"
 	"fmt"
+	"runtime/debug"
 
 	"github.com/bilibili/smgo/sm4"
 )
@@ -46,7 +46,13 @@ func runC05(c *Ctx) {
 	}{
 		{"std", func() []byte { return parseHexNil("0123456789abcdeffedcba9876543210") }},
 		{"zero", func() []byte { return make([]byte, 16) }},
-		{"ones", func() []byte { b := make([]byte, 16); for i := range b { b[i] = 0xff }; return b }},
+		{"ones", func() []byte {
+			b := make([]byte, 16)
+			for i := range b {
+				b[i] = 0xff
+			}
+			return b
+		}},
 		{"onehot", func() []byte { b := make([]byte, 16); b[c.rng.Intn(16)] = 1 << uint(c.rng.Intn(8)); return b }},
 		{"rand", func() []byte { return c.rng.Bytes(16) }},
 	}
